@@ -191,6 +191,8 @@ var CommandFeatures = []Feature{
 		alt("cfg-scalars", `{plugins: [{p: str}, {q: 5}, {r: true}, {s: 2.5}]}`, `{plugins: [{github.com/buildkite-plugins/p-buildkite-plugin: str}, {github.com/buildkite-plugins/q-buildkite-plugin: 5}, {github.com/buildkite-plugins/r-buildkite-plugin: true}, {github.com/buildkite-plugins/s-buildkite-plugin: 2.5}]}`),
 		{Name: "cfg-timestamp", In: Map("plugins", Seq(Map("./t", Map("at", Time("2002-08-15T01:02:03Z"), "n", Seq(Time("2001-01-01T00:00:00Z")))))),
 			Out: Map("plugins", Seq(Map("./t", UMap("at", Time("2002-08-15T01:02:03Z"), "n", Seq(Time("2001-01-01T00:00:00Z"))))))},
+		{Name: "cfg-numbers", In: Map("plugins", Seq(Map("./n", Map("mode", IntRaw("0644", 420), "big", Int(9007199254740993), "neg", IntRaw("-0x10", -16), "list", Seq(IntRaw("010", 8), Int(-9007199254740995)))))),
+			Out: Map("plugins", Seq(Map("./n", UMap("mode", Int(420), "big", Int(9007199254740993), "neg", Int(-16), "list", Seq(Int(8), Int(-9007199254740995))))))},
 		alt("dup", `{plugins: [{p#v1: {a: 1}}, {p#v1: {a: 2}}]}`, `{plugins: [{github.com/buildkite-plugins/p-buildkite-plugin#v1: {a: 1}}, {github.com/buildkite-plugins/p-buildkite-plugin#v1: {a: 2}}]}`),
 	}},
 	{"cmd.env", []Alt{
@@ -240,6 +242,12 @@ var CommandFeatures = []Feature{
 		alt("deep", `{x: {b: {d: 1, c: [null, {z: 1, y: 2}]}, a: []}, "if": build.branch == "main"}`, `{x: {b: {d: 1, c: [null, {z: 1, y: 2}]}, a: []}, "if": build.branch == "main"}`),
 		alt("emptykey", `{"": emptykey}`, `{"": emptykey}`),
 		alt("emptyvals", `{retry: {}, artifact_paths: [], skip: ""}`, `{retry: {}, artifact_paths: [], skip: ""}`),
+		// integers and floats in the spellings YAML allows: the value is what counts
+		{Name: "number-spellings", In: Map("oct", IntRaw("010", 8), "perm", IntRaw("0644", 420), "oct2", IntRaw("0o17", 15), "hex", IntRaw("0x1F", 31), "us", IntRaw("1_000", 1000), "plus", IntRaw("+5", 5),
+			"bin", IntRaw("0b11", 3), "neg", IntRaw("-0x10", -16), "exp", FltRaw("1e3", 1000), "dot", FltRaw(".5", 0.5), "in", Seq(IntRaw("007", 7), Map("k", IntRaw("0777", 511)))),
+			Out: Map("oct", Int(8), "perm", Int(420), "oct2", Int(15), "hex", Int(31), "us", Int(1000), "plus", Int(5), "bin", Int(3), "neg", Int(-16), "exp", Flt(1000), "dot", Flt(0.5), "in", Seq(Int(7), Map("k", Int(511))))},
+		// keys that would name another kind of step are ordinary extra keys of a command step, wherever they are written
+		alt("kind-keys", `{wait: null, block: b2, trigger: t2, group: null, steps: []}`, `{wait: null, block: b2, trigger: t2, group: null, steps: []}`),
 		{Name: "timestamp", In: Map("when", Time("2002-08-15T01:02:03Z")), Out: Map("when", Time("2002-08-15T01:02:03Z"))},
 		{Name: "timestamp-nested", In: Map("sched", Map("b", Time("2002-08-15T01:02:03Z"), "a", Seq(Map("t", Time("2001-01-01T00:00:00Z"))))), Out: Map("sched", Map("b", Time("2002-08-15T01:02:03Z"), "a", Seq(Map("t", Time("2001-01-01T00:00:00Z")))))},
 	}},
